@@ -189,6 +189,14 @@ impl Report {
         println!("  signature: {signature}");
         println!("  what: {what}");
         let _ = std::io::stdout().flush();
+        // a library thread was found stuck (it neither answers, exits nor panics): every further case
+        // that needs a daemon would wait for its time-out, so the run ends with this verdict
+        if crate::daemonh::STUCK.load(std::sync::atomic::Ordering::SeqCst) {
+            self.caps.push("stopped: a daemon or worker thread is stuck".into());
+            self.exhaustive = false;
+            let code = self.finish_mut();
+            std::process::exit(code);
+        }
     }
 
     pub fn known_hits(&self) -> u64 {
